@@ -397,6 +397,8 @@ impl Impl {
             } else if any_elig {
                 self.fail_oracle(&format!("ineligible-selected-{why}"), format!("{} selected while an eligible backend exists", v.name()));
             } else if !(v.normal && v.backoff_ok) {
+                // fail-open tolerates "unhealthy" only
+                let why = if !v.normal { "closing" } else { "backoff" };
                 self.fail_oracle(&format!("failopen-selected-{why}"), format!("{} selected in fail-open", v.name()));
             }
         }
@@ -780,6 +782,9 @@ impl Area for Backends {
             script(&["new", "add 0 0 0 - - 0", "add 0 1 1 - - 0", "add 0 2 2 - - 0", "pol 0 ll conn", "inc 0 0", "sel 0 -", "inc 0 1", "inc 0 1", "sel 0 -", "pol 0 ll req", "reqinc 0 2", "sel 0 -", "pol 0 p2 conn", "sel 0 -", "pol 0 p2 ct", "sel 0 -", "pol 0 rnd -", "sel 0 -"]),
             // Random with a zero weight and with a negative weight
             script(&["new", "add 0 0 0 - 0 0", "add 0 1 1 - 100 0", "sel 0 -", "sel 0 -", "add 0 2 2 - -5 0", "sel 0 -"]),
+            // (not flagged: the property speaks of backends *marked* unhealthy) health results are recorded by
+            // address: with two backends at one address the first takes every result, the second is never marked
+            script(&["new", "add 0 0 1 - - 0", "add 0 1 1 - - 0", "pol 0 rr -", "hc 0 1 0 1", "hc 0 1 0 1", "sel 0 -", "sel 0 -"]),
             // WITNESS F11: two backends share an address; the connection opened on the second is closed by address
             script(&["new", "add 0 0 1 - - 0", "add 0 1 1 - - 0", "inc 0 1", "close 0 1"]),
             // WITNESS: duplicate sticky id, first holder unhealthy, second qualifies
